@@ -38,12 +38,25 @@ func readActionTable(c *Ctx, dv *dev, rule string) actionTable {
 		for _, in := range b.Instrs {
 			if st, ok := in.(*ssa.Store); ok {
 				if f := fieldOfAddr(st.Addr); f != nil && (f.Name() == "actionsPress" || f.Name() == "actionsRelease") {
-					mapField[st.Val] = f.Name()
+					mapField[throughCtor(c.P, st.Val)] = f.Name() // also a table built by a constructor helper
 				}
 			}
 		}
 	}
-	for _, b := range nd.Blocks {
+	var tableBlocks []*ssa.BasicBlock
+	hosts := map[*ssa.Function]bool{}
+	for v := range mapField {
+		if in, ok := v.(ssa.Instruction); ok && !hosts[in.Parent()] {
+			hosts[in.Parent()] = true
+		}
+	}
+	hosts[nd] = true
+	for _, f := range c.P.Funcs { // deterministic order
+		if hosts[f] {
+			tableBlocks = append(tableBlocks, f.Blocks...)
+		}
+	}
+	for _, b := range tableBlocks {
 		for _, in := range b.Instrs {
 			mu, ok := in.(*ssa.MapUpdate)
 			if !ok {
@@ -256,6 +269,7 @@ func checkC02(c *Ctx) {
 	ruleR12(c, dv, modes, "R2.1b")
 	// R2.2 release path is mapping independent
 	ruleR14(c, dv, "R2.2")
+	ruleCounterInit(c, dv, "R2.2c") // the holder count that decides whether the pinned Note Off is sent is per (channel, note)
 	// R2.3 / R2.4 actions
 	at := readActionTable(c, dv, "R2.3")
 	if c.Require(at.ok, "R2.3", "device.NewDevice/action-table", "action table not found in NewDevice") {
@@ -574,26 +588,44 @@ func ruleCounterInit(c *Ctx, dv *dev, rule string) {
 		return
 	}
 	okOuter, okInner := false, false
-	for _, b := range nd.Blocks {
+	outer = throughCtor(c.P, outer) // the table may be built by a constructor helper
+	host := nd
+	if in, ok := outer.(ssa.Instruction); ok {
+		host = in.Parent()
+	}
+	for _, b := range host.Blocks {
 		for _, in := range b.Instrs {
 			mu, ok := in.(*ssa.MapUpdate)
-			if !ok {
+			if !ok || mu.Map != outer {
 				continue
 			}
-			if mu.Map == outer {
-				if lo, hi, ok := countedLoopRange(mu.Key); ok && lo == 0 && hi == 15 {
-					if _, isMake := mu.Value.(*ssa.MakeMap); isMake {
-						okOuter = true
-						// inner
-						for _, b2 := range nd.Blocks {
-							for _, in2 := range b2.Instrs {
-								if mu2, ok := in2.(*ssa.MapUpdate); ok && mu2.Map == mu.Value {
-									if lo, hi, ok := countedLoopRange(mu2.Key); ok && lo == 0 && hi == 127 {
-										if k, isC := mu2.Value.(*ssa.Const); isC && k.Int64() == 0 {
-											okInner = true
-										}
-									}
-								}
+			lo, hi, ok := countedLoopRange(mu.Key)
+			if !ok || lo != 0 || hi != 15 {
+				continue
+			}
+			// a fresh inner table per channel: made inside the loop body (or by a helper called there), never one
+			// table shared by all channels
+			inner := mu.Value
+			if call, isCall := inner.(*ssa.Call); isCall {
+				if !mu.Key.(*ssa.Phi).Block().Dominates(call.Block()) {
+					continue
+				}
+				inner = throughCtor(c.P, inner)
+			}
+			mk, isMake := inner.(*ssa.MakeMap)
+			if !isMake {
+				continue
+			}
+			if mk.Parent() == host && !mu.Key.(*ssa.Phi).Block().Dominates(mk.Block()) {
+				continue // made once before the loop: all channels would share one counter table
+			}
+			okOuter = true
+			for _, b2 := range mk.Parent().Blocks {
+				for _, in2 := range b2.Instrs {
+					if mu2, ok := in2.(*ssa.MapUpdate); ok && mu2.Map == ssa.Value(mk) {
+						if lo, hi, ok := countedLoopRange(mu2.Key); ok && lo == 0 && hi == 127 {
+							if k, isC := mu2.Value.(*ssa.Const); isC && k.Int64() == 0 {
+								okInner = true
 							}
 						}
 					}
@@ -602,7 +634,7 @@ func ruleCounterInit(c *Ctx, dv *dev, rule string) {
 		}
 	}
 	c.Check(okOuter && okInner, rule, "device.NewDevice/counter-init", pos, "counted loops cover channels [0,15] x notes [0,127] with the constant 0",
-		"activeNotesCounter is not initialised to 0 for all 16x128 (channel, note) pairs by counted loops")
+		"activeNotesCounter is not initialised to 0 for all 16x128 (channel, note) pairs by counted loops with a fresh note table per channel")
 }
 
 // countedLoopRange recognises v as the induction variable of `for v := c; v < K; v++`
